@@ -71,6 +71,8 @@ def jobs(tier):
     for follow in (0, 1):
         J.append(Job("fk_2fl", "fork_two_flavors", "1,0,0,0,0", {"qs_attempts": 1, "wait_attempts": 1, "fork_follow": follow},
                      {"VRT_MEMBARRIER": 2}, workers=8))
+        J.append(Job("fk_2fl", "fork_two_flavors", "1,0,0,0,0", {"qs_attempts": 1, "wait_attempts": 1, "fork_follow": follow, "only_second": 1},
+                     {"VRT_MEMBARRIER": 2}, workers=8))
     # the components this property's guarantee is built on, on the real code (checks/cross.py)
     J += cross.gp_core(tier)
     J += cross.sig_core(tier)
